@@ -1,4 +1,5 @@
 import Norad.Lemmas.C18SpecRead
+import Norad.Lemmas.C18Codec
 /-!
 # C18 — saving and loading a designspace document preserves it
 
@@ -170,6 +171,31 @@ theorem ds_spec_reader_counterexample_forbidden (n : String) :
 
 /-- non-vacuity: the sample document is `XmlSafe` -/
 example : XmlSafe sampleDoc = true := by decide
+
+/-! ## the codec hypothesis is satisfiable -/
+
+/-- **codec_laws_satisfiable**: `CodecLaws` holds of `refCodec`, whose integer part (`Int.repr`,
+    `String.toInt?` + the `i64`/`u64` range tests) and base64 part (`b64enc`/`b64dec`) are the functions the
+    driver runs against the strings Rust wrote.  Its float and date parts are stand-ins (injective decimal
+    renderings): for Rust's shortest-round-trip `Display` of `f32`/`f64` and the `time` crate's RFC 3339
+    formatting the laws REMAIN HYPOTHESES, checked by the driver on every string of every case. -/
+theorem codec_laws_satisfiable : ∃ c : Codec, CodecLaws c := ⟨refCodec, codecLaws_refCodec⟩
+
+/-- the integer law, for the real implementation: every `i64` and every `u64` survives `to_string` →
+    `IntWrapper` (i64 first, then u64; no `0x` prefix) -/
+theorem int_codec_roundtrip (i : Int) (h1 : i64Min ≤ i) (h2 : i ≤ u64Max) :
+    readIntText refCodec (intShow i) = some i := readIntText_show codecLaws_refCodec i h1 h2
+
+/-- the base64 law, for the real implementation, all byte strings -/
+theorem base64_roundtrip (bs : List UInt8) : b64dec (b64enc bs) = some bs := b64_rt bs
+
+/-- the document theorems instantiated: no hypothesis about the codec is left -/
+theorem ds_roundtrip_refCodec (d : Doc) (h : WellFormed refCodec d = true) :
+    saveLoad refCodec d = .ok (some d) := ds_roundtrip codecLaws_refCodec d h
+
+/-- non-vacuity with a date and data in the lib -/
+example : WellFormed refCodec { sampleDoc with lib := .cons "d" (.date ⟨0, 5⟩) (.cons "b" (.data [255, 0, 7]) .nil) } = true := by
+  decide
 
 /-- non-vacuity: the guards hold of a lib with every value type -/
 example (c : Codec) : kvsStated (.cons "s" (.str "a b") (.cons "i" (.int (-5)) (.cons "r" (.real ⟨0⟩)
